@@ -134,6 +134,179 @@ def boundary_programs():
     return out
 
 
+def long_input_programs():
+    """Built-ins applied to inputs longer than any plausible fast-path threshold (1000, 1025 and 2100 characters / elements / keys):
+    the whole result is the observation."""
+    mk = "var b = ''; for (var i = 0; i < %d; i++) { b += String.fromCharCode(%s) } var s = b.repeat(%d).slice(0, %d); "
+    fills = {"ascii": (95, "32 + i"), "latin": (224, "32 + i"), "bmp": (150, "i % 3 ? 97 + i % 26 : 0x400 + i")}
+    uses = ["encodeURI(s)", "encodeURIComponent(s)", "decodeURI(encodeURI(s))", "decodeURIComponent(encodeURIComponent(s))",
+            "JSON.stringify(s)", "JSON.parse(JSON.stringify(s))", "s.toUpperCase()", "s.toLowerCase()", "s.split('').reverse().join('')",
+            "s.split(/[aeiou]/).length", "s.replace(/[a-m]/g, '-')", "s.replace(/\\W/g, function (c) { return '%' + c.charCodeAt(0) })",
+            "s.trim()", "s.indexOf('~') + ',' + s.lastIndexOf('!')", "(s.match(/[0-9]+/g) || []).length", "s.split(' ').sort().join(' ')",
+            "s.slice(7, -7)", "s.repeat(2)", "s.substring(3).concat(s)", "[s, s].join(s.charAt(5))",
+            "s.search(/z{2}|~/)", "s.replace('a', '$&$&')", "Object.keys(s).length", "s.charCodeAt(s.length - 1)",
+            "s.split('').map(function (c) { return c.charCodeAt(0) % 7 }).join('')"]
+    out = []
+    for n in (1000, 1025, 2100):
+        for fn, (blen, fill) in fills.items():
+            for u in uses:
+                out.append(mk % (blen, fill, n // blen + 1, n) + u)
+    # long arrays and objects with many keys
+    for n in (1000, 1025, 2100):
+        pre = "var a = []; for (var i = 0; i < %d; i++) { a.push((i * 7919) %% 1009) } var o = {}; a.forEach(function (v, i) { o['k' + v + '_' + i] = i }); " % n
+        for u in ["a.slice().sort()", "a.slice().sort(function (x, y) { return x - y })", "a.join()", "a.indexOf(500) + ',' + a.lastIndexOf(3)",
+                  "Object.keys(o).join()", "JSON.stringify(o)", "var ks = []; for (var k in o) { ks.push(k) } ks.join()", "a.filter(function (x) { return x % 3 }).length",
+                  "a.concat(a).reverse().slice(0, 50)", "JSON.stringify(JSON.parse(JSON.stringify(a)))", "Object.entries(o).length", "a.map(String).join('')",
+                  "Object.keys(Object.assign({}, o)).join()"]:
+            out.append(pre + u)
+    return out
+
+
+def declaration_programs():
+    """Function declarations in every position, including those that are not part of a statement list."""
+    return [
+        "if (true) function g() { return 1 } g()",
+        "if (false) ; else function e1() { return 4 } e1()",
+        "for (var i = 0; i < 1; i++) function h() { return 2 } typeof h",
+        "L: function lf() { return 3 } lf()",
+        "do function dw() { return 5 } while (false); typeof dw",
+        "while (typeof ww === 'undefined') function ww() { return 6 } typeof ww",
+        "for (var k in {a: 1}) function fi() { return 7 } typeof fi",
+        "function outer() { if (true) function inner() { return 8 } return typeof inner } outer()",
+        "function a() { return b() } function b() { return 9 } a()",
+        "{ function blk() { return 10 } } typeof blk",
+        "switch (1) { case 1: function sw() { return 11 } } typeof sw",
+        "try { function tf() { return 12 } } catch (e) { } typeof tf",
+        "var r = typeof hoisted; function hoisted() { } r",
+        "function dup() { return 1 } function dup() { return 2 } dup()",
+    ]
+
+
+MUTATORS = [
+    "var r = /a/g; delete r.lastIndex; delete r.source; delete r.flags; delete r.global; Object.keys(r).join()",
+    "var r = /a/; Object.defineProperty(r, 'zz', {value: 1, enumerable: false}); Object.defineProperty(r, 'lastIndex', {enumerable: true, value: 3}); r.yy = 2",
+    "function f(a, b) { } delete f.name; delete f.length; delete f.prototype; Object.defineProperty(f, 'name', {enumerable: true, value: 'q'}); f.zz = 1",
+    "var f = function () { }; Object.defineProperty(f, 'hid', {value: 1, enumerable: false}); Object.defineProperty(f, 'length', {enumerable: true})",
+    "var a = [1, 2, 3]; Object.defineProperty(a, 'length', {writable: false}); Object.defineProperty(a, 'hid', {value: 1, enumerable: false}); delete a[1]",
+    "var e = new Error('m'); delete e.message; delete e.stack; Object.defineProperty(e, 'message', {enumerable: true, value: 'x'}); e.name = 'N'",
+    "(function () { delete arguments.length; delete arguments[0]; Object.defineProperty(arguments, 'length', {enumerable: true, value: 9}); arguments.zz = 1 })(1, 2)",
+    "var s = new String('abc'); s.zz = 1; delete s.length; Object.defineProperty(s, 'hid', {value: 1, enumerable: false})",
+    "var t = new Uint8Array(4); t.zz = 1; Object.defineProperty(t, 'hid', {value: 1, enumerable: false}); delete t.length",
+    "var o = {a: 1, b: 2}; Object.defineProperty(o, 'a', {enumerable: false}); Object.defineProperty(o, 'hid', {value: 1, enumerable: false}); delete o.b; Object.freeze(o)",
+    "Math.zz = 1; delete Math.PI; Math.abs = null; Math.max = function () { return 'mine' }",
+    "JSON.stringify = null; JSON.zz = 1; delete JSON.parse",
+    "Array.prototype.zz = 1; Array.prototype.push = null; delete Array.prototype.map; Array.isArray = 5",
+    "Object.prototype.zz = 1; Object.keys = null; delete Object.prototype.hasOwnProperty; Object.prototype.toString = function () { return 'T' }",
+    "String.prototype.trim = null; String.prototype.zz = 1; delete String.prototype.slice; String.fromCharCode = 7",
+    "Number.prototype.toString = function () { return 'N' }; Number.MAX_VALUE = 1; delete Number.prototype.toFixed; Number.zz = 1",
+    "Boolean.prototype.zz = 1; Boolean.prototype.toString = null",
+    "Function.prototype.call = null; Function.prototype.zz = 1; delete Function.prototype.bind",
+    "RegExp.prototype.exec = null; RegExp.prototype.zz = 1; delete RegExp.prototype.test",
+    "Error.prototype.name = 'X'; Error.prototype.zz = 1; TypeError.prototype.name = 'Y'; delete Error.prototype.toString",
+    "Date.now = function () { return 5 }; Date.zz = 1",
+    "console.log = null; console.zz = 1",
+    "parseInt = null; parseFloat = 5; isNaN = 6; eval = 7; undefined = 8; NaN = 9; Infinity = 10",
+    "globalThis.zz = 1; globalThis.Array = null; globalThis.Object = 5",
+    "Object.freeze(Array.prototype); Object.freeze(Math); Object.freeze(Object.prototype); Object.preventExtensions(JSON)",
+    "Object.setPrototypeOf(Array.prototype, null); Object.setPrototypeOf(Function.prototype, null); Object.setPrototypeOf(Math, Array.prototype)",
+    "Object.defineProperty(Array.prototype, 'length', {value: 5}); Object.defineProperty(Object.prototype, 'hid', {get: function () { return 'G' }, configurable: true})",
+    "Object.defineProperty(String.prototype, 'length', {value: 5}); Uint8Array.prototype.zz = 1; Uint8Array.BYTES_PER_ELEMENT = 9",
+    "Array.prototype[0] = 'proto0'; Object.prototype[1] = 'proto1'; Object.prototype.length = 7",
+    "var big = {}; for (var i = 0; i < 3000; i++) { big['k' + i] = i } for (var i = 0; i < 3000; i += 2) { delete big['k' + i] } Object.keys(big).length",
+    "var rs = []; for (var i = 0; i < 300; i++) { rs.push(new RegExp('a{' + i + '}', 'g')); rs[i].test('aaaa') } rs.length",
+    "var fs = []; for (var i = 0; i < 300; i++) { fs.push(new Function('a' + i, 'return a' + i + ' + ' + i)) } fs[7](1)",
+    "for (var i = 0; i < 300; i++) { try { eval('(' ) } catch (e) { } try { eval('var v' + i + ' = ' + i) } catch (e) { } } typeof v7",
+    "'x'.replace(/x/, function () { RegExp.prototype.zz2 = 1; return 'y' }); [3, 1, 2].sort(function (a, b) { Array.prototype.zz2 = 1; return a - b })",
+    "var o = {}; o.__proto__ = null; var p = {__proto__: Array.prototype}; Object.create(null).x = 1; Object.prototype.__proto__ = null",
+]
+
+OBSERVERS = [
+    "var r = /a/g; var ks = []; for (var k in r) { ks.push(k) } [ks.join(), Object.keys(r).join(), JSON.stringify(r), typeof r.lastIndex, r.source, r.flags, r.global, r.zz, r.yy, "
+    "JSON.stringify(Object.getOwnPropertyDescriptor(r, 'lastIndex')), r.hasOwnProperty('zz'), r.test('a'), r.lastIndex].join('|')",
+    "function f(a, b) { } var ks = []; for (var k in f) { ks.push(k) } [ks.join(), Object.keys(f).join(), f.name, f.length, typeof f.prototype, f.zz, f.hid, "
+    "JSON.stringify(Object.getOwnPropertyDescriptor(f, 'name')), JSON.stringify(Object.getOwnPropertyDescriptor(f, 'length'))].join('|')",
+    "var a = [1, 2, 3]; var ks = []; for (var k in a) { ks.push(k) } a.push(4); [ks.join(), Object.keys(a).join(), a.length, a.hid, a.zz, a[0], [][0], "
+    "JSON.stringify(Object.getOwnPropertyDescriptor(a, 'length')), a.map(function (x) { return x * 2 }).join(), Array.isArray(a)].join('|')",
+    "var e = new Error('m'); var ks = []; for (var k in e) { ks.push(k) } [ks.join(), Object.keys(e).join(), e.message, e.name, typeof e.stack, '' + e, e.zz, "
+    "new TypeError('t').name, JSON.stringify(Object.getOwnPropertyDescriptor(e, 'message'))].join('|')",
+    "(function () { var ks = []; for (var k in arguments) { ks.push(k) } return [ks.join(), Object.keys(arguments).join(), arguments.length, arguments[0], arguments.zz].join('|') })(1, 2)",
+    "var s = new String('abc'); var ks = []; for (var k in s) { ks.push(k) } [ks.join(), Object.keys(s).join(), s.length, s.zz, s.hid, 'abc'.length, ' a '.trim(), 'abc'.slice(1), String.fromCharCode(65), 'x'.zz].join('|')",
+    "var t = new Uint8Array(4); var ks = []; for (var k in t) { ks.push(k) } [ks.join(), Object.keys(t).join(), t.length, t.zz, t.hid, Uint8Array.BYTES_PER_ELEMENT].join('|')",
+    "var o = {a: 1, b: 2}; var ks = []; for (var k in o) { ks.push(k) } o.c = 3; [ks.join(), Object.keys(o).join(), JSON.stringify(o), o.zz, o.hid, o[1], o.length, '' + o, "
+    "o.hasOwnProperty('a'), Object.isFrozen(o), Object.getPrototypeOf(o) === Object.prototype, typeof Object.keys].join('|')",
+    "[Object.keys(Math).join(), Math.zz, Math.PI, Math.abs(-2), Math.max(1, 2), Object.isFrozen(Math), Object.getPrototypeOf(Math) === Object.prototype].join('|')",
+    "[Object.keys(JSON).join(), JSON.zz, typeof JSON.stringify, typeof JSON.parse, Object.isExtensible(JSON), JSON.stringify([1, {a: 2}])].join('|')",
+    "[typeof Array.prototype.push, typeof Array.prototype.map, [].zz, [].zz2, typeof Array.isArray, Object.isFrozen(Array.prototype), "
+    "Object.getPrototypeOf(Array.prototype) === Object.prototype, Array.prototype.length, Object.keys(Array.prototype).join()].join('|')",
+    "[({}).zz, typeof Object.prototype.hasOwnProperty, Object.prototype.toString.call([]), Object.isFrozen(Object.prototype), Object.isExtensible(Object.prototype), "
+    "Object.keys(Object.prototype).join(), Object.getPrototypeOf(Object.prototype), ({}).hid].join('|')",
+    "[(5).toString(), Number.MAX_VALUE, typeof Number.prototype.toFixed, Number.zz, true.zz, '' + true, (1.5).toFixed(1)].join('|')",
+    "[typeof Function.prototype.call, typeof Function.prototype.bind, (function () { }).zz, (function () { return this }).call(5) == 5, "
+    "Object.getPrototypeOf(Function.prototype) === Object.prototype].join('|')",
+    "[typeof RegExp.prototype.exec, typeof RegExp.prototype.test, /a/.zz, /a/.zz2, /a/.exec('a')[0], 'xax'.replace(/a/, 'b'), 'a1b2'.match(/[0-9]/g).join()].join('|')",
+    "[new Error('m').name, Error.prototype.zz, new TypeError('t').name, '' + new RangeError('r'), typeof Error.prototype.toString].join('|')",
+    "[typeof console.log, console.zz, typeof parseInt, typeof parseFloat, typeof isNaN, typeof eval, typeof undefined, '' + NaN, '' + Infinity, parseInt('12px'), eval('1 + 1')].join('|')",
+    "[typeof Date.now(), Date.zz, typeof zz, typeof Array, typeof Object, typeof v7, typeof big, typeof rs, typeof fs].join('|')",
+    "var big = {}; for (var i = 0; i < 50; i++) { big['k' + i] = i } for (var i = 0; i < 50; i += 2) { delete big['k' + i] } big.k0 = 'again'; Object.keys(big).join()",
+    "var o = {}; var before = Object.getPrototypeOf(o) === Object.prototype; o.__proto__ = Array.prototype; [before, Array.isArray(o), typeof o.push, ({__proto__: null}).toString].join('|')",
+    "try { null.x } catch (e) { e.name + ':' + (e instanceof TypeError) + ':' + e.zz + ':' + Object.keys(e).join() }",
+    "try { eval('(') } catch (e) { e.name + ':' + (e instanceof SyntaxError) + ':' + Object.keys(e).join() }",
+]
+
+
+def _guard_statements(src):
+    """every top-level statement of a mutator in its own try/catch, so that an unsupported built-in does not stop the rest"""
+    parts = _split_top(src, ";")
+    return " ".join("try { %s } catch (e_) { }" % p.strip() if not p.strip().startswith(("var ", "function ", "for ", "(function")) else p.strip() + ";"
+                    for p in parts if p.strip())
+
+
+def _split_top(src, sep):
+    out, depth, cur, q = [], 0, "", None
+    for ch in src:
+        if q:
+            cur += ch
+            if ch == q:
+                q = None
+            continue
+        if ch in "'\"":
+            q = ch
+        elif ch in "([{":
+            depth += 1
+        elif ch in ")]}":
+            depth -= 1
+        if ch == sep and depth == 0:
+            out.append(cur)
+            cur = ""
+        else:
+            cur += ch
+    out.append(cur)
+    return out
+
+
+def _guard_observer(src):
+    """`setup; [e1, e2, ...].join('|')` -> every element evaluated in its own try/catch"""
+    i = src.rfind("[", 0, src.rfind("].join('|')"))
+    # find the matching opening bracket of the final array literal
+    end = src.rfind("].join('|')")
+    depth, i = 0, end
+    while i >= 0:
+        if src[i] == "]":
+            depth += 1
+        elif src[i] == "[":
+            depth -= 1
+            if depth == 0:
+                break
+        i -= 1
+    head, items, tail = src[:i], _split_top(src[i + 1:end], ","), src[end + len("].join('|')"):]
+    body = " ".join("try { out_.push(%s) } catch (e_) { out_.push('E:' + e_.name) }" % it.strip() for it in items)
+    return head + "(function () { var out_ = []; " + body + " return out_.join('|') }).call(this)" + tail
+
+
+MUTATORS = [_guard_statements(m) for m in MUTATORS]
+OBSERVERS = [_guard_observer(o) if "].join('|')" in o and not o.startswith("(function") else o for o in OBSERVERS]
+
+
 def corpus_files():
     """The repository's own .js test files and README snippets (the `corpus scripts` of the property), as collected by C13."""
     from mc.props import c13
@@ -151,7 +324,8 @@ def corpus_programs():
 
 def all_programs():
     seen, out = set(), []
-    for p in wide_programs() + enumeration_programs() + boundary_programs() + corpus_files() + corpus_programs():
+    for p in (wide_programs() + enumeration_programs() + boundary_programs() + declaration_programs() + long_input_programs() + OBSERVERS +
+              corpus_files() + corpus_programs()):
         if p not in seen:
             seen.add(p)
             out.append(p)
@@ -215,6 +389,24 @@ def run_warm(payload):
     return ("ok" if not bad else "; ".join(bad[:3])) + "\x00ok"
 
 
+def run_cross(payload):
+    res = _child(payload.get("seed", 0), {"programs": payload["observers"], "mutators": payload["mutators"], "mode": "cross",
+                                          "repeat": payload.get("repeat", 0), "repeated": payload.get("repeated", [])})
+    if "error" in res:
+        return res["error"] + "\x00ok"
+    bad = [o for o in res["outcomes"] if o != "same"]
+    return ("ok" if not bad else "; ".join(bad[:3])) + "\x00ok"
+
+
+def _cross_cases(tier):
+    rep = declaration_programs()
+    out = [("every observer after every mutator ran in another context of the same process (%d x %d), hash seed %d" % (len(MUTATORS), len(OBSERVERS), s),
+            {"observers": OBSERVERS, "mutators": MUTATORS, "seed": s}) for s in ((0, 1) if tier == "quick" else range(8))]
+    out.append(("each of %d programs with function declarations in and outside statement lists evaluated 400 times after 3000 other parses" % len(rep),
+                {"observers": [], "mutators": [], "repeated": rep, "repeat": 400, "seed": 3}))
+    return out
+
+
 def _seed_cases(nseeds, chunk=150):
     progs = all_programs()
     out = []
@@ -254,6 +446,11 @@ def spaces(tier, seed, all_strata=False):
             "all 24 permutations of 4-program batches from a 12-program pool in one process", "24 x C(12,4)"),
         _sp("c15_warm", "run_warm", _warm_cases, "fresh process vs after 1000 unrelated evaluations, 100 of which fail in 29 different ways (deep joins, cycles, limits, throws through natives, syntax errors, regex errors), then each failing program 110 times in a row, with a shifted virtual clock", "4 slices"),
     ]
+    out.append(_sp("c15_cross", "run_cross", lambda: _cross_cases(tier),
+                   "%d observer programs (own-key order, attributes and inherited members of every kind of built-in object) re-evaluated on a fresh "
+                   "context after each of %d mutator programs (delete / redefine / freeze / re-prototype built-ins, thousands of keys, regexps, "
+                   "Function and eval compilations) ran on another context in the same process: identical to the first evaluation; plus "
+                   "function-declaration programs repeated 400 times" % (len(OBSERVERS), len(MUTATORS)), "%d x %d" % (len(MUTATORS), len(OBSERVERS))))
     if all_strata and tier != "thorough":
         out.append(_sp("c15_seeds_64", "run_seeds", lambda: _seed_cases(64), "64 seeds", "64 seeds"))
     return out
